@@ -122,7 +122,7 @@ pub fn component_scenario(idx: usize, seed: u64, full_mutation: bool) -> Scenari
     let honest = [x];
     let cx = CertKey::honest(kx, NAME).chain[0].to_vec();
     let cy = CertKey::honest(ky, NAME).chain[0].to_vec();
-    let mut counters = Default::default();
+    let mut counters: std::collections::BTreeMap<String, u64> = Default::default();
     let mut classes_seen = std::collections::BTreeSet::new();
     let mut certs: Vec<(String, Vec<u8>)> = vec![
         ("honest-x".into(), cx.clone()),
@@ -179,6 +179,18 @@ pub fn component_scenario(idx: usize, seed: u64, full_mutation: bool) -> Scenari
         let mut c = cx.clone();
         c[pos..pos + 32].copy_from_slice(&peer_id_of_key(&ky).0);
         certs.push(("x-spki-swapped-to-y".into(), c));
+    }
+    // a valid end-entity certificate followed by another party's certificate as "intermediate":
+    // the identity is still the end entity's
+    {
+        let ee = CertificateDer::from(cy.clone());
+        let inter = [CertificateDer::from(cx.clone())];
+        let now = adversary::now_unix();
+        let acc = v.client.verify_client_cert(&ee, &inter, now).is_ok();
+        *counters.entry("verifier_inputs".to_owned()).or_default() += 1;
+        if acc && anemo::verif::crypto::peer_id_from_certificate(&ee).ok() != Some(peer_id_of_key(&ky)) {
+            return ScenarioResult::violated("chain [y, x]: identity is not the end entity's", json!({}));
+        }
     }
     let n = certs.len();
     for (class, cert) in &certs {
@@ -278,16 +290,18 @@ pub fn e2e_scenario(idx: usize, seed: u64) -> ScenarioResult {
         let _ = h.net.disconnect(y);
         tokio::time::sleep(Duration::from_millis(200)).await;
 
-        let action = idx % 10;
+        let action = idx % 12;
         let mut problems: Vec<String> = Vec::new();
         let mut admitted_as: Option<bool> = None;
         let action_name;
         let mut adv_conn: Option<quinn::Connection> = None;
         let listener_identity: Option<CertKey>;
         // ---- phase 1: X is not connected to V; nothing may attribute X at V
+        let chain_own_then_x = CertKey { chain: vec![ck_y.chain[0].clone(), CertificateDer::from(cert_x.clone())], key: ck_y.key.clone() };
         match action {
-            0..=6 => {
+            0..=6 | 10 => {
                 let (name, ident): (&str, Option<CertKey>) = match action {
+                    10 => ("dial:chain-own-cert-then-x-cert", Some(chain_own_then_x.clone())),
                     0 => ("dial:replay-x-cert-with-y-key", Some(ck_x_pub.clone())),
                     1 => (
                         "dial:x-tbs-resigned-by-y",
@@ -322,6 +336,7 @@ pub fn e2e_scenario(idx: usize, seed: u64) -> ScenarioResult {
             _ => {
                 // adversary as listener
                 let (name, ident): (&str, CertKey) = match action {
+                    11 => ("listen:chain-own-cert-then-x-cert", chain_own_then_x.clone()),
                     7 => ("listen:replay-x-cert-with-y-key", ck_x_pub.clone()),
                     8 => (
                         "listen:x-tbs-resigned-by-y",
@@ -361,7 +376,7 @@ pub fn e2e_scenario(idx: usize, seed: u64) -> ScenarioResult {
                     problems.push(format!("connect_with_peer_id(adversary address, X) succeeded and returned {}", pid_hex(p)));
                 }
                 match &r_plain {
-                    Ok(p) if *p == y && action == 9 => admitted_as = Some(true),
+                    Ok(p) if *p == y && (action == 9 || action == 11) => admitted_as = Some(true),
                     Ok(p) => problems.push(format!("connect(adversary address) returned {} although the adversary only holds Y's key", pid_hex(p))),
                     Err(_) => admitted_as = Some(false),
                 }
@@ -441,7 +456,7 @@ pub fn e2e_scenario(idx: usize, seed: u64) -> ScenarioResult {
                 problems.push(format!("NewPeer for unknown identity {}", pid_hex(p)));
             }
         }
-        let expect_admit = matches!(action, 2 | 6 | 9);
+        let expect_admit = matches!(action, 2 | 6 | 9 | 10 | 11);
         if admitted_as == Some(true) && !expect_admit {
             // admitted although the handshake should have failed: must at least not be X
             if ids_announced.contains(&x) && honest_ok == 0 {
